@@ -11,11 +11,12 @@ VARIABLE trees   \* tree id -> [s |-> abstract set, beta, rev]
 FromIno(ino) == [c \in {ino[i][1] : i \in DOMAIN ino} |->
                    (CHOOSE k \in {ino[i] : i \in DOMAIN ino} : k[1] = c)[2]]
 
+\* e.blind = 1: nothing but the Len field was read after the call (no walk, no lookup)
 ObsOK(e, o) ==
   /\ e.panic = ""
   /\ e.len = SLen(o.s)
   /\ e.empty = (SLen(o.s) = 0)
-  /\ (e.full = 1 =>
+  /\ (e.full = 1 /\ e.blind = 0 =>
         /\ e.ino = Inorder(o.s, o.rev)
         /\ e.min = MinKey(o.s, o.rev)
         /\ e.max = MaxKey(o.s, o.rev)
